@@ -17,7 +17,7 @@ RULE = ("exhaustive: one retirable service after query+retire, every sequence of
         "NotifyServiceRetired), other service commands, stop-done(true/false) and hide/show of a service (GetService answers nil while hidden) placed around "
         "queries, retire, notifications and exit (shown again at once, much later, or never; retire re-issued afterwards), and membership changes (0-3 other members "
         "hosting services of the same types in assorted states) right before and/or right after queries, retire (also a repeated retire), every retired notification, "
-        "exit and stop-done, and anywhere in the random histories. Non-trivial = the node published at least one state or the node was stopped; distinct = distinct item sequences.")
+        "exit and stop-done, and anywhere in the random histories; stories also have a report while the node is still working and retire repeated between the reports. Non-trivial = the node published at least one state or the node was stopped; distinct = distinct item sequences.")
 TRUSTED_BASE = [
     "Coq 8.16.1 kernel + vm_compute (case evaluation, Examples); no native_compute",
     "hand translation nodectrl/{nodectrl,cmds,cmd,service_entry}.go, node/app/{app,cluster,clusterservices}.go as far as the controller uses them (GetService over the service directory with per-service state copies, FilterSelfServices, UpdateNodeState, StopNode) (+ the answers of node/builtin/ctrlcmd.go) -> C12/Model.v, measured by this correspondence run",
@@ -35,8 +35,10 @@ TECHNIQUE = ("Coq proof (state machine of the repaired NodeCtrl over the node ap
              "`declared`/`reported`/`hidden` and to the published-state trace, by induction over operations; simulation between a history and the same history "
              "without membership changes) + differential correspondence against the real NodeCtrl under the real node/app.App, driven through its admin actor")
 LEVEL_TEXT = ("Machine-checked Coq theorems over all configurations and all operation histories: retire guard (iff), every hosted service resolvable at that moment told (and only those), a service that did not itself report retired never counted as retired, "
-              "retired only after / as soon as all services reported, exit guard (iff), StopNode at most once and exactly once per accepted exit, "
+              "retired only after / as soon as all services reported (in whatever order reports and accepted or refused retire commands came: a report is never lost, C12_reports_are_kept), "
+              "retirement support declared by the answer to the support query and by nothing else (C12_support_only_by_query), exit guard (iff), StopNode at most once and exactly once per accepted exit, "
               "published states monotone, refused commands are no-ops, the service directory as a function of the history (entries = hosted services the topology lists, each with the "
               "node state copied at the last topology publication, stale in between), name resolution and hence command delivery independent of those state copies "
               "(erasing every membership change from any history leaves all other observations unchanged), and the executable monitor accepts every model trace. The model is tied to the "
-              "Go code by running both on the same histories each run; the monitor (the theorems' statements) is also evaluated on the implementation's own traces.")
+              "Go code by running both on the same histories each run; the monitor (the theorems' statements, both directions of the retired clause and the per-service view shown by web_nodes "
+              "included: retired iff reported, supporting iff declared) is also evaluated on the implementation's own traces.")
